@@ -684,7 +684,11 @@ func (g *G) shadowStmt() []Stmt {
 			s.Value = "_"
 			g.declare(&Var{Name: name, K: KInt, NoAssign: true})
 			g.push(false)
-			s.Body = []Stmt{&Try{Body: []Stmt{&ExprStmt{X: &Call{Fn: Id(name), Args: []Expr{g.strLitNumeric()}}}}, HasCatch: true}}
+			var kcall Expr = &Call{Fn: Id(name), Args: []Expr{g.strLitNumeric()}}
+			if g.cfg.Log {
+				kcall = g.L(kcall) // never reached: if the call were folded as the builtin's, its value would be logged
+			}
+			s.Body = []Stmt{&Try{Body: []Stmt{&ExprStmt{X: kcall}}, HasCatch: true}}
 			if g.cfg.Log {
 				s.Body = append(s.Body, &ExprStmt{X: g.L(Id(name))})
 			}
